@@ -36,7 +36,8 @@ class Main:
     @staticmethod
     def generate(rng, tier, n=None):
         n = n or (N_QUICK if tier == "quick" else N_THOROUGH)
-        return [("q%d" % i, Q.gen_case(rng)) for i in range(n)]
+        return [("q%d" % i, Q.gen_case(rng)) for i in range(n)] + \
+               [("x%d" % i, Q.cross_case(rng)) for i in range(n // 4)]
 
     @staticmethod
     def monitor(lines, out):
